@@ -22,7 +22,9 @@
                     decResult (failure -> Missing); Mod still uses decToD128
                     whose failure is IGNORED and yields the zero value
                     Decimal128{} (bits 0,0).
-                    Non-finite operands collapse to the zero Decimal
+                    In Add / Mul a NaN / infinite operand next to a Decimal128
+                    gives the IEEE 754 special value (nonFinite); in Mod
+                    non-finite operands still collapse to the zero Decimal
                     (safeD128ToDec / safeFloatToDec).
    double x decimal: decimal.NewFromFloat (shortest round-trip rendering) is
                     not modelled: Unmodelled unless the double is zero or
@@ -224,6 +226,49 @@ Definition narrow_int32 (z : Z) : value := if in_int32 z then VInt32 z else VInt
 Definition checked_int64 (z : Z) : value := if in_int64 z then VInt64 z else VMissing.
 
 (* ------------------------------------------------------------------ *)
+(* nonFinite: IEEE 754 special values in Add / Mul when a Decimal128 takes part *)
+
+Definition d128_nan : value := VDecimal 8935141660703064064 0.        (* ParseDecimal128("NaN")       0x7C00.. *)
+Definition d128_pos_inf : value := VDecimal 8646911284551352320 0.    (* ParseDecimal128("Infinity")  0x7800.. *)
+Definition d128_neg_inf : value := VDecimal 17870283321406128128 0.   (* ParseDecimal128("-Infinity") 0xF800.. *)
+
+Record shape : Type := { sh_nan : bool; sh_inf : bool; sh_neg : bool; sh_zero : bool }.
+
+(* numberShape: None for values that are not numbers *)
+Definition number_shape (v : value) : option shape :=
+  match v with
+  | VInt32 z | VInt64 z => Some {| sh_nan := false; sh_inf := false; sh_neg := z <? 0; sh_zero := z =? 0 |}
+  | VDouble b => Some {| sh_nan := is_nan_bits b; sh_inf := is_inf_bits b; sh_neg := dbl_sign b; sh_zero := is_zero_bits b |}
+  | VDecimal h l =>
+      match dec_decode h l with
+      | DNaN => Some {| sh_nan := true; sh_inf := false; sh_neg := false; sh_zero := false |}
+      | DInf neg => Some {| sh_nan := false; sh_inf := true; sh_neg := neg; sh_zero := false |}
+      | DFin c _ => Some {| sh_nan := false; sh_inf := false; sh_neg := 1 <=? h / 2 ^ 63; sh_zero := c =? 0 |}
+      end
+  | _ => None
+  end.
+
+Definition is_decimal_value (v : value) : bool := match v with VDecimal _ _ => true | _ => false end.
+
+(* nonFinite(a, b, mul): Some result when a Decimal128 takes part and an
+   operand is NaN or infinite *)
+Definition non_finite (a b : value) (mul : bool) : option value :=
+  if negb (is_decimal_value a || is_decimal_value b) then None
+  else
+    match number_shape a, number_shape b with
+    | Some sa, Some sb =>
+        if negb (sh_nan sa || sh_nan sb || sh_inf sa || sh_inf sb) then None
+        else if sh_nan sa || sh_nan sb then Some d128_nan
+        else if mul then
+          if sh_zero sa || sh_zero sb then Some d128_nan
+          else Some (if xorb (sh_neg sa) (sh_neg sb) then d128_neg_inf else d128_pos_inf)
+        else
+          if sh_inf sa && sh_inf sb && xorb (sh_neg sa) (sh_neg sb) then Some d128_nan
+          else Some (if (sh_inf sa && sh_neg sa) || (sh_inf sb && sh_neg sb) then d128_neg_inf else d128_pos_inf)
+    | _, _ => None
+    end.
+
+(* ------------------------------------------------------------------ *)
 (* Add / Mul / Mod *)
 
 Definition dec_operand (v : value) : option (option dec) :=
@@ -242,8 +287,8 @@ Definition dec_binop (conv : dec -> res value) (op : dec -> dec -> dec) (a b : v
   | _, _ => Ok VMissing
   end.
 
-(* bsonkit.Add *)
-Definition Add (a b : value) : res value :=
+(* bsonkit.Add below the nonFinite test *)
+Definition add_finite (a b : value) : res value :=
   match a, b with
   | VInt32 x, VInt32 y => Ok (narrow_int32 (x + y))
   | VInt32 x, VInt64 y | VInt64 x, VInt32 y | VInt64 x, VInt64 y => Ok (checked_int64 (x + y))
@@ -254,8 +299,15 @@ Definition Add (a b : value) : res value :=
   | _, _ => Ok VMissing
   end.
 
-(* bsonkit.Mul *)
-Definition Mul (a b : value) : res value :=
+(* bsonkit.Add *)
+Definition Add (a b : value) : res value :=
+  match non_finite a b false with
+  | Some r => Ok r
+  | None => add_finite a b
+  end.
+
+(* bsonkit.Mul below the nonFinite test *)
+Definition mul_finite (a b : value) : res value :=
   match a, b with
   | VInt32 x, VInt32 y => Ok (narrow_int32 (x * y))
   | VInt32 x, VInt64 y | VInt64 x, VInt32 y | VInt64 x, VInt64 y => Ok (checked_int64 (x * y))
@@ -264,6 +316,13 @@ Definition Mul (a b : value) : res value :=
   | VDouble x, VDouble y => Ok (VDouble (fmul x y))
   | VDecimal _ _, _ | _, VDecimal _ _ => dec_binop dec_result dec_mul a b
   | _, _ => Ok VMissing
+  end.
+
+(* bsonkit.Mul *)
+Definition Mul (a b : value) : res value :=
+  match non_finite a b true with
+  | Some r => Ok r
+  | None => mul_finite a b
   end.
 
 (* the zero-divisor guard at the top of bsonkit.Mod *)
